@@ -130,23 +130,16 @@ def _work(task):
     return res
 
 
-def discharge(obligations, z3_ms=10000, cvc5_ms=20000, both=False, procs=None):
-    """obligations: list of engine.Obligation.  Returns list of result dicts in the same order."""
-    tasks = []
-    trivial = {}
-    for i, ob in enumerate(obligations):
-        if ob.meta.get("trivial"):
-            trivial[i] = {"name": ob.full_name(), "status": "proved", "by": "simplifier", "backends": [], "model": None}
-            continue
-        tasks.append((i, (ob.full_name(), to_smt2(ob.facts, ob.goal), z3_ms, cvc5_ms, both)))
-    results = dict(trivial)
-    if tasks:
-        procs = procs or min(16, max(1, len(tasks)))
-        if procs == 1 or len(tasks) == 1:
-            for i, t in tasks:
-                results[i] = _work(t)
-        else:
-            with mp.get_context("fork").Pool(procs) as pool:
-                for (i, _), r in zip(tasks, pool.map(_work, [t for _, t in tasks], chunksize=1)):
-                    results[i] = r
-    return [results[i] for i in range(len(obligations))]
+def run_tasks(tasks, procs=None):
+    """tasks: list of (name, smt2 text, z3_ms, cvc5_ms, both) -> list of result dicts"""
+    if not tasks:
+        return []
+    procs = procs or min(16, len(tasks))
+    if procs == 1:
+        return [_work(t) for t in tasks]
+    with mp.get_context("fork").Pool(procs) as pool:
+        return pool.map(_work, tasks, chunksize=1)
+
+
+def check_text(name, text, z3_ms=10000, cvc5_ms=20000, both=False):
+    return _work((name, text, z3_ms, cvc5_ms, both))
